@@ -28,15 +28,6 @@ open Dds Dds.EncTotal
 
 /-! ### which calls are refused -/
 
-theorem runWrites_res (f : Option Nat) (l : List Nat) :
-    (runWrites f l).1 = .ok ∨ (runWrites f l).1 = .ioError := by
-  cases f with
-  | none => rw [runWrites_none]; exact Or.inl rfl
-  | some k =>
-    by_cases h : l.sum ≤ k
-    · rw [runWrites_ok l k h]; exact Or.inl rfl
-    · rw [runWrites_fail l k (by omega)]; exact Or.inr rfl
-
 /-- **Size rule.** For every encodable format of the table, every writer loop, every size and
 every writer: the call is refused with `InvalidSize` exactly when
 `EncodingSupport::supports_size` refuses the (normalised) size; a refusal has written nothing
@@ -151,35 +142,6 @@ theorem write_fault_general (l : List Nat) (k : Nat) :
     refine ⟨⟨fun _ => (by omega), fun _ => rfl⟩, ⟨fun e => (by cases e), fun e => absurd e h⟩, ?_⟩
     show k = min k l.sum
     omega
-
-/-- the encode call's result and byte count are those of its writes, once it is not refused -/
-theorem encode_eq_runWrites (r : Row) (hr : r ∈ table) (he : r.encodable = true) (lp : Loop)
-    (w h : Nat) (fault : Option Nat)
-    (hs : r.supportsSize (normView w h).1 (normView w h).2 = true) :
-    (encode r lp w h fault).res = (runWrites fault (writes r.px lp (normView w h).1 (normView w h).2)).1 ∧
-    (encode r lp w h fault).bytes = (runWrites fault (writes r.px lp (normView w h).1 (normView w h).2)).2 := by
-  have hg := good_of_mem hr
-  unfold Row.good at hg
-  unfold encode
-  simp only [he, Bool.not_true, Bool.false_eq_true, if_false]
-  revert hs
-  generalize normView w h = s
-  obtain ⟨w', h'⟩ := s
-  intro hs
-  cases hpx : r.px with
-  | fixed bpp => exact ⟨rfl, rfl⟩
-  | block bytes bw bh => exact ⟨rfl, rfl⟩
-  | biPlanar p1 p2 sx sy =>
-    rw [hpx] at hg
-    simp only [Bool.and_eq_true, decide_eq_true_eq] at hg
-    have hc : biPlanarRefuses w' h' = false := by
-      unfold Row.supportsSize at hs
-      rw [hg.1.2, hg.2] at hs
-      unfold biPlanarRefuses
-      simp only [Bool.and_eq_true, decide_eq_true_eq] at hs
-      simp [hs.1, hs.2]
-    simp only [hc, Bool.false_eq_true, if_false]
-    exact ⟨trivial, trivial⟩
 
 /-- **Writer fault, instantiated with the writer loops of every family.** For every encodable
 format, every writer loop, every supported size and every `k`: below the encoded length the
